@@ -25,6 +25,7 @@ fn num(name: &str) -> Option<f64> {
         "hotter" => 1.0,
         "rhalf" => 0.5,
         "rbig" => 1.5,
+        "rneg" => -0.25,
         "tiny" => 2e-5,
         "unit" => 1.0,
         "d001" => 0.01,
